@@ -9,6 +9,7 @@ import Cicada.Model.Locust
 import Cicada.Model.ScriptRun
 import Cicada.Spec.C14
 import Cicada.Spec.C15
+import Cicada.Spec.C06
 import Cicada.Spec.C17
 import Cicada.Spec.C03
 import Cicada.Spec.C01
@@ -296,6 +297,36 @@ partial def pBlockW : List String → C14.Block × List String
     let (b, r) := pBlockW r2
     (.cons (.ite as els) b, r)
   | _ :: rest => pBlockW rest
+
+/-! ### job histories on the wire: `L:bg:gid:p.p`, `E:e|k|s|c:pid:val`, `W:gid:p.p`, `P` separated by `;` -/
+def natList (s : String) : List Nat := if s = "" ∨ s = "-" then [] else (s.splitOn ".").filterMap String.toNat?
+
+def parseJobOps (s : String) : List Jobs.Op :=
+  (s.splitOn ";").filterMap (fun o => match o.splitOn ":" with
+    | ["L", bg, gid, pids] => some (.launch (bg = "1") gid.toNat! (natList pids))
+    | ["E", k, pid, v] =>
+      let p := pid.toNat!
+      let x : Int := v.toInt?.getD 0
+      (match k with
+       | "e" => some (.ev (.exited p x))
+       | "k" => some (.ev (.killed p x))
+       | "s" => some (.ev (.stopped p x))
+       | "c" => some (.ev (.continued p))
+       | _ => none)
+    | ["W", gid, pids] => some (.waitFg gid.toNat! (natList pids))
+    | ["P"] => some .poll
+    | _ => none)
+
+def jobsOut (s : Jobs.Sh) : String :=
+  if s.jobs.isEmpty then "[]" else
+  ",".intercalate (s.jobs.map fun j =>
+    let srt := (j.stoppedSet.toArray.qsort (· < ·)).toList
+    s!"{j.id}:{j.gid}:{".".intercalate (j.pids.map toString)}:{".".intercalate (srt.map toString)}:{j.status}:{if j.isBg then 1 else 0}")
+
+def viewOut (v : List (Nat × List Nat × Bool)) : String :=
+  if v.isEmpty then "[]" else
+  let sorted := (v.toArray.qsort (fun a b => a.1 < b.1)).toList
+  ",".intercalate (sorted.map fun (g, ps, st) => s!"{g}:{".".intercalate (ps.map toString)}:{if st then "Stopped" else "Running"}")
 
 def answer (stream : String) (f : Array String) : Ans :=
   let g (i : Nat) : String := f.getD i "-"
@@ -605,6 +636,14 @@ def answer (stream : String) (f : Array String) : Ans :=
       | .diverge _ => "HANG"
       | _ => "ERR"
     { m := m, s := s, guard := "1" }
+  | "jobs" =>
+    let ops := parseJobOps (g 0)
+    let (s, outs) := ops.foldl (fun (acc : Jobs.Sh × List String) op =>
+      let (s', r) := Jobs.step acc.1 op
+      (s', acc.2 ++ [(match r with | some st => "W=" ++ toString st ++ "/" ++ toString s'.pending.length ++ " " | none => "") ++ jobsOut s'])) ({}, [])
+    let w := ops.foldl C06.worldStep []
+    let m := "|".intercalate outs
+    { m := m ++ "#" ++ viewOut (C06.modelView s), s := (m ++ "#" ++ viewOut (C06.specView w)), guard := g 1, cls := g 2 }
   | "globneeds" =>
     -- which patterns will `expand_glob` hand to the glob crate for this case (f2: line | line1 | tokens)
     let es := envIn (g 0)
